@@ -334,10 +334,27 @@ def gen_scc(rng, nblocks=None, begin_with=None, end_state=None):
     frame = rng.choice([0, 30, 301, 1800, 108000])
     end_state = end_state or rng.choice(["closed", "closed", "open_pop", "open_roll", "open_paint", "single_ctrl",
                                          "pending_eoc", "dangling_pac"])
+    headless = rng.random() < 0.3   # first block without its mode-setting prefix: decoder defaults are visible
     for b in range(nblocks):
         mode = rng.choice(["pop", "pop", "roll", "paint"])
         w = []
-        if mode == "pop":
+        if b == 0 and headless:
+            # text, carriage returns, extended characters, backspaces before any cue-starting command
+            mode = "headless"
+            for r in range(rng.randint(1, 3)):
+                if rng.random() < 0.7:
+                    w += D(rng.choice(SCC_PACS))
+                w += scc_chars(rng.choice(SCC_TEXT))
+                k = rng.random()
+                if k < 0.35:
+                    w += D("94ad")
+                elif k < 0.55:
+                    w += scc_chars("e") + D(rng.choice(SCC_EXTENDED))
+                elif k < 0.65:
+                    w += D("94a1")
+                elif k < 0.8:
+                    w += D("942f")
+        elif mode == "pop":
             w += D("94ae") + D("9420")
             for r in range(rng.randint(1, 3)):
                 w += D(rng.choice(SCC_PACS))
